@@ -7,7 +7,7 @@ namespace Lopdf.Ren
 open Lopdf
 
 /-- **C10, renumber_iso: the two passes compose into ONE renaming.**  For every document with a sorted
-object map, no page enumerated twice, pairwise distinct object numbers and `1 ≤ start + n ≤ u32::MAX`,
+object map and pairwise distinct object numbers (a page the tree lists twice is taken once) and `start + n - 1 ≤ u32::MAX` (all new ids fit),
 `renumber_objects_with(start)` returns `d2`, and there is `rho` (page-order renaming followed by the dense
 assignment) such that: `rho` is one-to-one on the ids in use; the new ids in use are exactly the images;
 `max_id` is the last number; the trailer is the original with every reference renamed by `rho`; whatever
@@ -16,8 +16,8 @@ is answered by an object after the page-order pass or at the end (`NoCap`; its f
 then every object sits at `rho id`, renamed by `rho` exactly when it was reachable from the ORIGINAL trailer
 and untouched otherwise, and reachable dangling references are left as they are. -/
 theorem renumber_iso (d : Doc) (start : Nat) (hs : d.objects.Sorted)
-    (g1 : (pageIter d.trailer d.objects).Nodup) (g2 : (d.objects.keys.map (·.1)).Nodup)
-    (hlo : 1 ≤ start + d.objects.length) (hhi : start + d.objects.length ≤ U32_MAXE) :
+    (g2 : (d.objects.keys.map (·.1)).Nodup)
+    (hhi : start + d.objects.length ≤ U32_MAXE + 1) :
     ∃ d2 rho, renumber d start = .ok d2 ∧ d2.maxId = start + d.objects.length - 1 ∧
       d2.objects.length = d.objects.length ∧
       (∀ a b, (d.objects.get a).isSome → (d.objects.get b).isSome → rho a = rho b → a = b) ∧
@@ -29,10 +29,10 @@ theorem renumber_iso (d : Doc) (start : Nat) (hs : d.objects.Sorted)
         (∀ k o, d.objects.get k = some o →
           (ReachIn d.trailer d.objects k → d2.objects.get (rho k) = some (mapRefs rho o)) ∧
           (¬ ReachIn d.trailer d.objects k → d2.objects.get (rho k) = some o))) := by
-  obtain ⟨r1, h1⟩ := pagePass_isoStep d g1 g2
+  obtain ⟨r1, h1⟩ := pagePass_isoStep d g2
   have hs1 := pagePass_sorted d hs
   have hlen := h1.length_eq hs hs1
-  obtain ⟨d2, hd2, hmax, h2, _⟩ := densePass_isoStep (pagePass d) start hs1 (by rw [hlen]; exact hlo) (by rw [hlen]; exact hhi)
+  obtain ⟨d2, hd2, hmax, h2, _⟩ := densePass_isoStep (pagePass d) start hs1 (by rw [hlen]; exact hhi)
   generalize rhoFn (denseSpec (sortBy idLeE (pagePass d).objects.keys) start) = r2 at h2
   have hlen2 : d2.objects.length = (pagePass d).objects.length :=
     h2.length_eq hs1 (wf_densePass (pagePass d) start hs1 d2 hd2).2
@@ -68,8 +68,8 @@ occurs in the trailer or in an object reachable from it (`ReachIn … r`):
 * if `r` resolved to nothing, then either it still is `r` and still resolves to nothing, or it is exactly the
   registered capture F-C10-b (`CapturedRef`). -/
 theorem renumber_resolve (d : Doc) (start : Nat) (hs : d.objects.Sorted)
-    (g1 : (pageIter d.trailer d.objects).Nodup) (g2 : (d.objects.keys.map (·.1)).Nodup)
-    (hlo : 1 ≤ start + d.objects.length) (hhi : start + d.objects.length ≤ U32_MAXE) :
+    (g2 : (d.objects.keys.map (·.1)).Nodup)
+    (hhi : start + d.objects.length ≤ U32_MAXE + 1) :
     ∃ d2 rho, renumber d start = .ok d2 ∧
       (∀ a b, (d.objects.get a).isSome → (d.objects.get b).isSome → rho a = rho b → a = b) ∧
       d2.trailer = mapRefsD rho d.trailer ∧
@@ -78,7 +78,7 @@ theorem renumber_resolve (d : Doc) (start : Nat) (hs : d.objects.Sorted)
           d2.objects.get (rho r) = some (mapRefs rho o)) ∧
       (∀ r, ReachIn d.trailer d.objects r → d.objects.get r = none →
         (rho r = r ∧ d2.objects.get r = none) ∨ CapturedRef d d2 r) := by
-  obtain ⟨d2, rho, h1, _, _, hinj, _, htr, _, hfix, hobjs⟩ := renumber_iso d start hs g1 g2 hlo hhi
+  obtain ⟨d2, rho, h1, _, _, hinj, _, htr, _, hfix, hobjs⟩ := renumber_iso d start hs g2 hhi
   refine ⟨d2, rho, h1, hinj, htr, ?_, ?_⟩
   · intro hc1 hc2 r o hr ho
     exact ((hobjs hc1 hc2) r o ho).1 hr
@@ -101,12 +101,12 @@ theorem renumber_resolve (d : Doc) (start : Nat) (hs : d.objects.Sorted)
 reference is captured, the pages of the renumbered document are the pages of the original, in the same
 order, under their new names. -/
 theorem renumber_page_order (d : Doc) (start : Nat) (hs : d.objects.Sorted)
-    (g1 : (pageIter d.trailer d.objects).Nodup) (g2 : (d.objects.keys.map (·.1)).Nodup)
-    (hlo : 1 ≤ start + d.objects.length) (hhi : start + d.objects.length ≤ U32_MAXE) :
+    (g2 : (d.objects.keys.map (·.1)).Nodup)
+    (hhi : start + d.objects.length ≤ U32_MAXE + 1) :
     ∃ d2 rho, renumber d start = .ok d2 ∧ d2.trailer = mapRefsD rho d.trailer ∧
       (NoCap d.trailer d.objects (pagePass d).objects → NoCap d.trailer d.objects d2.objects →
         pageIter d2.trailer d2.objects = (pageIter d.trailer d.objects).map rho) := by
-  obtain ⟨d2, rho, h1, _, hlen, _, _, htr, _, hfix, hobjs⟩ := renumber_iso d start hs g1 g2 hlo hhi
+  obtain ⟨d2, rho, h1, _, hlen, _, _, htr, _, hfix, hobjs⟩ := renumber_iso d start hs g2 hhi
   refine ⟨d2, rho, h1, htr, ?_⟩
   intro hc1 hc2
   apply pageIter_comm (Good := ReachIn d.trailer d.objects) d.trailer d2.trailer htr hlen
@@ -121,9 +121,8 @@ theorem renumber_page_order (d : Doc) (start : Nat) (hs : d.objects.Sorted)
 
 /- non-vacuity: a concrete document meets the hypotheses of `renumber_iso` -/
 example : Objects.Sorted [((3, 0), Obj.null), ((7, 0), Obj.null)] ∧
-    (pageIter [] [((3, 0), Obj.null), ((7, 0), Obj.null)]).Nodup ∧
     ((Objects.keys [((3, 0), Obj.null), ((7, 0), Obj.null)]).map (·.1)).Nodup := by
-  refine ⟨by simp [Objects.Sorted, Objects.keys, idLt], by decide, by decide⟩
+  refine ⟨by simp [Objects.Sorted, Objects.keys, idLt], by decide⟩
 
 
 /-! ### bookmarks on arbitrary tables -/
